@@ -717,11 +717,21 @@ func checkC17(p *core.Program, r *core.Report) {
 		// them append on every iteration
 		nl := 0
 		eachInstrWithCallees(p, rep, "hub", 2, func(in ssa.Instruction) {
-			c, ok := in.(*ssa.Call)
-			if !ok || !isBuiltin(in, "append") {
+			var listT types.Type
+			if c, ok := in.(*ssa.Call); ok && isBuiltin(in, "append") {
+				listT = c.Type()
+			} else if st, ok := in.(*ssa.Store); ok {
+				// out[i] = element on a pre-sized slice
+				if ia, ok := st.Addr.(*ssa.IndexAddr); ok {
+					if _, isSlice := ia.X.Type().Underlying().(*types.Slice); isSlice {
+						listT = ia.X.Type()
+					}
+				}
+			}
+			if listT == nil {
 				return
 			}
-			ts := types.TypeString(c.Type(), nil)
+			ts := types.TypeString(listT, nil)
 			what := ""
 			switch {
 			case strings.HasSuffix(ts, "api.RemoteService"):
@@ -735,6 +745,14 @@ func checkC17(p *core.Program, r *core.Report) {
 				return
 			}
 			nl++
+			if what == "visible-services list" {
+				k2 := "hub.ReportMdnsEntries visible-services list is built from the reported snapshot"
+				if src := loopRangeSource(in); src != nil && isEntriesParam(src) {
+					r.OK(R6, k2, p.Pos(in.Pos()), "ranges over the entries parameter")
+				} else {
+					r.Fail(R6, k2, p.Pos(in.Pos()), "the list handed to the application is not built from the snapshot this call was given (e.g. from the hub's cached list, which is refreshed only for unsolicited reports): after a requested report the application's last list is not the manager's final set")
+				}
+			}
 			key := "hub.ReportMdnsEntries " + what + " takes every reported entry"
 			if bad := skipsIteration(in); bad != nil {
 				r.Fail(R6, key, p.Pos(in.Pos()), "an iteration over the reported entries can go on to the next entry without appending this one (the append sits behind a `continue`, e.g. for connected or unpaired services): the list the application gets is not the set of visible services")
@@ -1200,4 +1218,54 @@ func freshEntry(p *core.Program, v ssa.Value, depth int) bool {
 		}
 	})
 	return okAll && any
+}
+
+// loopRangeSource: the collection ranged over by the innermost loop around in (map range: the Range operand;
+// slice range: the slice whose length bounds the index), nil if not recognisable.
+func loopRangeSource(in ssa.Instruction) ssa.Value {
+	b := in.Block()
+	reach := core.ReachableFrom(b, nil)
+	for d := b; d != nil; d = d.Idom() {
+		isHdr := false
+		for _, pr := range d.Preds {
+			if d.Dominates(pr) && reach[pr] {
+				isHdr = true
+			}
+		}
+		if !isHdr {
+			continue
+		}
+		// map range: header block calls next on a Range value
+		for _, x := range d.Instrs {
+			if nx, ok := x.(*ssa.Next); ok {
+				if rg, ok := nx.Iter.(*ssa.Range); ok {
+					return rg.X
+				}
+			}
+		}
+		// slice range: `i < len(s)` with len computed before the loop
+		if iff := core.BlockIf(d); iff != nil {
+			if bo, ok := iff.Cond.(*ssa.BinOp); ok && bo.Op == token.LSS {
+				if s := lenCallOf(bo.Y); s != nil {
+					return s
+				}
+			}
+		}
+		return nil
+	}
+	return nil
+}
+
+// isEntriesParam: v is (the caller's argument for) a map[string]*api.MdnsEntry parameter.
+func isEntriesParam(v ssa.Value) bool {
+	v = core.Canon(v)
+	pa, ok := v.(*ssa.Parameter)
+	if !ok {
+		return false
+	}
+	m, ok := pa.Type().Underlying().(*types.Map)
+	if !ok {
+		return false
+	}
+	return strings.HasSuffix(types.TypeString(m.Elem(), nil), "api.MdnsEntry")
 }
